@@ -103,11 +103,14 @@ def Order.init (root : Str) (price qty : Int) (ticker side ordType account : Str
 
 /-! ### text helpers -/
 
-/-- `str(n)` for a non-negative Python int -/
-def dec (n : Nat) : Str :=
-  if n < 10 then [48 + n] else dec (n / 10) ++ [48 + n % 10]
-termination_by n
-decreasing_by omega
+/-- `str(n)` for a non-negative Python int: most significant digit first.  Structural recursion on
+a fuel argument (so that the kernel can evaluate it); `dec n` starts with fuel `n + 1`, more than
+the number of digits – `dec_eq` (Lemmas/OrderObjText) shows the fuel never runs out. -/
+def decAux : Nat → Nat → Str
+  | 0, _ => []
+  | fuel + 1, n => if n < 10 then [48 + n] else decAux fuel (n / 10) ++ [48 + n % 10]
+
+def dec (n : Nat) : Str := decAux (n + 1) n
 
 /-- digits of the fractional part k/8 as Python's `repr(float)` prints them -/
 def frac8 (k : Nat) : Str :=
